@@ -1,22 +1,35 @@
 ---- MODULE J_C10 ----
-EXTENDS StreamParser, Frame, Json, IOUtils, TLC
+EXTENDS StreamParser, Contract, Json, IOUtils, TLC
 (* (calls: <<api, target>>, api 0 next, 1 read, 2 next_nb, 3 read_nb - on these sources the nb variants never block)
    C10: SmlReader over a transmission  g0 . Canonical(F1) . g1 ... Fk . gk  yields, call by call, the discarded-bytes
    reports for the noise and the files in order in the representation each call asks for (raw payload, parsed file
    per SmlGrammar, event stream per StreamParser), then the leftover report and end of input; and its results equal
-   the hand composition of decode_streaming with the parsers. *)
-RECURSIVE Layout(_, _, _, _, _)
-\* slots <<kind, pos, arg>>: kind "disc" (arg n), "val" (arg file index), "eof" (arg n)
-Layout(files, noise, i, off, acc) ==
-  IF i > Len(files)
-  THEN LET g == noise[i] IN [slots |-> IF Len(g) > 0 THEN Append(acc, <<"eof", off + Len(g), Len(g)>>) ELSE acc, T |-> off + Len(g)]
-  ELSE LET g == noise[i] f == Canonical(files[i])
-           a1 == IF Len(g) > 0 THEN Append(acc, <<"disc", off + Len(g) + 8, Len(g)>>) ELSE acc
-       IN Layout(files, noise, i + 1, off + Len(g) + Len(f), Append(a1, <<"val", off + Len(g) + Len(f), i>>))
+   the hand composition of decode_streaming with the parsers.
+   Noise may also contain *near-frames* (r.near[i], after r.noise[i]): complete frame-like sequences that are not the
+   canonical frame of any payload (pad count 4 with four zero bytes and a matching checksum, pad count without padding,
+   misaligned length, wrong checksum, invalid escape).  The monitor itself establishes that a near-frame is not a frame
+   (Contract.FrameAt) and that the decoder specification answers it with exactly one error at its last byte; the reader
+   must then report exactly one decode error there - never a file. *)
+D == INSTANCE Decoder WITH MatcherFallback <- "kmp", DiscWidth <- 0
+NearOk(nr) ==
+  nr = <<>> \/ /\ Len(nr) >= 16 /\ SubSeq(nr, 1, 8) = StartSeq
+               /\ ~FrameAt(nr, 0, Len(nr)).is
+               /\ LET evs == D!Run(D!InitDec(D!CapInf), nr).evs IN
+                  Len(evs) = 1 /\ evs[1][1] = Len(nr) /\ evs[1][2].k \in {"invmsg", "invesc"}
+RECURSIVE Layout(_, _, _, _, _, _)
+\* slots <<kind, pos, arg>>: kind "disc" (arg n), "err" (a near-frame ends at pos), "val" (arg file index), "eof" (arg n)
+Layout(files, noise, near, i, off, acc) ==
+  LET g == noise[i] nr == near[i]
+      a1 == IF Len(g) > 0 /\ (Len(nr) > 0 \/ i <= Len(files)) THEN Append(acc, <<"disc", off + Len(g) + 8, Len(g)>>) ELSE acc
+      a2 == IF Len(nr) > 0 THEN Append(a1, <<"err", off + Len(g) + Len(nr), 0>>) ELSE a1
+      o2 == off + Len(g) + Len(nr)
+  IN IF i > Len(files)
+     THEN [slots |-> IF Len(g) > 0 /\ Len(nr) = 0 THEN Append(a2, <<"eof", o2, Len(g)>>) ELSE a2, T |-> o2]
+     ELSE LET f == Canonical(files[i]) IN Layout(files, noise, near, i + 1, o2 + Len(f), Append(a2, <<"val", o2 + Len(f), i>>))
 
-RECURSIVE Concat(_, _, _)
-Concat(files, noise, i) ==
-  IF i > Len(files) THEN noise[i] ELSE noise[i] \o Canonical(files[i]) \o Concat(files, noise, i + 1)
+RECURSIVE Concat(_, _, _, _)
+Concat(files, noise, near, i) ==
+  IF i > Len(files) THEN noise[i] \o near[i] ELSE noise[i] \o near[i] \o Canonical(files[i]) \o Concat(files, noise, near, i + 1)
 
 PosOk(p, q) == p = -1 \/ p = q
 EvOk2(e, exp) == Len(e) = Len(exp) /\ PosOk(e[1], exp[1]) /\ SubSeq(e, 2, Len(e)) = SubSeq(exp, 2, Len(exp))
@@ -30,6 +43,7 @@ SlotOk(call, res, slot, files, T) ==
   LET t == call[2] IN
   /\ Len(res) >= 2 /\ res[1] = t
   /\ CASE slot[1] = "disc" -> Len(res) = 3 /\ res[2] = 0 /\ EvOk2(res[3], <<slot[2], 2, slot[3]>>)
+       [] slot[1] = "err"  -> Len(res) = 3 /\ res[2] = 0 /\ Len(res[3]) >= 2 /\ PosOk(res[3][1], slot[2]) /\ res[3][2] \in {4, 5}
        [] slot[1] = "val"  -> ValueOk(t, res, files[slot[3]])
        [] slot[1] = "eof"  -> Len(res) = 3 /\ res[2] = 0 /\ EvOk2(res[3], <<T, 9, 0, slot[3]>>)
        [] OTHER -> \* past the end: next -> None, read -> end-of-file error with count 0
@@ -40,9 +54,10 @@ StripPos(res) == IF Len(res) = 3 /\ res[2] = 0 THEN <<res[1], 0, SubSeq(res[3], 
                  ELSE IF Len(res) = 3 /\ res[2] = 10 THEN <<res[1], 10>> ELSE res
 
 Mon(r) ==
-  LET lay == Layout(r.files, r.noise, 1, 0, <<>>) IN
-  /\ Len(r.noise) = Len(r.files) + 1
-  /\ r.stream = Concat(r.files, r.noise, 1)
+  LET lay == Layout(r.files, r.noise, r.near, 1, 0, <<>>) IN
+  /\ Len(r.noise) = Len(r.files) + 1 /\ Len(r.near) = Len(r.noise)
+  /\ \A x \in 1..Len(r.near) : NearOk(r.near[x])
+  /\ r.stream = Concat(r.files, r.noise, r.near, 1)
   /\ Len(r.res) = Len(r.calls) /\ Len(r.hand) = Len(r.calls)
   /\ Len(r.calls) >= Len(lay.slots) + 1                       \* at least one call past the end
   /\ \A j \in 1..Len(r.calls) :
